@@ -183,7 +183,12 @@ def _worker(a):
                 if not entries and r == 0:
                     tree = [(b"other", ("str", b"x"))]
                 p = b.add_file(confgen.render_conservative(tree))
-                cmds += ["LOAD " + confgen.pct(p), "EMIT %d %s" % (r, ",".join(FACS)), "DUMP"]
+                cmds += ["LOAD " + confgen.pct(p)]
+                if i % 7 == 3 and FULL not in dests:
+                    # the disk is full for a while: every write to a log file fails (EFBIG) while round 900+r is logged - those lines
+                    # may be lost; then there is room again and round r is logged: those lines are all due
+                    cmds += ["FSIZE 0", "EMIT %d %s" % (900 + r, ",".join(FACS)), "FSIZE unlimited"]
+                cmds += ["EMIT %d %s" % (r, ",".join(FACS)), "DUMP"]
                 if (i + r) % 3 == 0:
                     # long texts (around and beyond the logger's formatting buffer): round number r+100
                     cmds.append("EMITLONG %d %s %d" % (r + 100, ",".join(FACS), LONG_LENS[(i // 3 + r) % len(LONG_LENS)]))
@@ -258,6 +263,16 @@ def _worker(a):
                     got[(int(mm.group(1)), mm.group(2), mm.group(3))][d] += 1
                 elif m.group(3).startswith("MSG"):
                     out.append(("line-format", "line-format", "garbled message text %r" % m.group(3)[:100], wit))
+        if i % 7 == 3 and FULL not in dests:
+            # what was logged while no file could be written may be lost or come late, but never goes where its section does not send it
+            for r, (entries, routes) in enumerate(secs):
+                stats["rounds_logged_after_an_outage"] = stats.get("rounds_logged_after_an_outage", 0) + 1
+                for fac in FACS:
+                    for s in range(6):
+                        have = set(got.get((900 + r, fac, SEVS[s]), {}))
+                        if have - expected_dests(routes, fac, s):
+                            out.append(("routing-extra", "routing-extra:outage", "round %d (logged while no file could be written): message (%s, %s) reached %s, the section routes it to %s" % (
+                                r, fac, SEVS[s], sorted(have), sorted(expected_dests(routes, fac, s))), wit))
         for r, (entries, routes) in enumerate(secs):
             stats["invalid_entries"] += sum(1 for k, _ in entries if k.decode() in INVALID_KEYS)
             for fac in FACS:
@@ -311,6 +326,7 @@ def run(chk, tier, scale=1.0):
                 "every line must be complete and attributed; every third round also emits messages padded to 600-5000 bytes (whose line must be well-formed and whose text must be a prefix of what was logged - truncation by the logger's buffer is not judged); distinct = section sequence; non-trivial = at least one entry")
     d, s = make_case(chk.seed, 0, tier)
     chk.sample({"sections": [confgen.render_conservative([(b"logs", ("obj", e))]).decode("latin-1") for e, _ in s]})
+    chk.require("rounds_logged_after_an_outage", 20 * min(1.0, scale))
     chk.require("routing_decisions_judged", 20000)
     chk.require("expected_deliveries", 2000)
     chk.require("reload_sequences", 100)
